@@ -5,6 +5,7 @@ import (
 	"encoding/hex"
 	"fmt"
 	"hash"
+	"runtime"
 	"runtime/debug"
 	"sort"
 	"sync"
@@ -19,6 +20,13 @@ type Entry struct {
 	ready func() bool // evaluated with Sim.mu held; nil = always eligible
 	ch    chan int
 	in    bool
+	// coin > 0: a yield point whose park is decided by the scheduler: with
+	// probability (100-coin)% the entry is released at once, without a pick.
+	// Deciding it here (entries sorted by id at a quiescent point) instead of
+	// in the yielding goroutine keeps the tape independent of the order in
+	// which the Go runtime happens to run goroutines that are runnable at
+	// the same time.
+	coin int
 }
 
 // Sim is the seeded scheduler. Exactly one parked goroutine is released per
@@ -36,6 +44,7 @@ type Sim struct {
 
 	h         hash.Hash
 	KeepTrace bool
+	DebugElig bool
 	Trace     []string
 
 	Start    time.Time
@@ -52,6 +61,7 @@ type Sim struct {
 
 	actorLogs map[string][]string
 	actorIdx  []string
+	goids     map[uint64]string // goroutine id -> actor name
 
 	// Gate, if set, is consulted for eligibility of ids (lock models of tier 2).
 	Gate func(id string) bool
@@ -87,6 +97,7 @@ func NewSim(t *Tape) *Sim {
 		MaxSim:    time.Hour,
 		Stats:     map[string]int{},
 		actorLogs: map[string][]string{},
+		goids:     map[uint64]string{},
 	}
 }
 
@@ -211,6 +222,15 @@ func (s *Sim) ParkE(id string, ready func() bool, prep func(*Entry)) int {
 	}
 	s.seq++
 	e := &Entry{ID: id, seq: s.seq, ready: ready, ch: make(chan int, 1), in: true}
+	if s.DebugElig {
+		for _, x := range s.parked {
+			if x.ID == id {
+				buf := make([]byte, 1<<16)
+				n := runtime.Stack(buf, true)
+				s.Trace = append(s.Trace, "DUPLICATE PARK "+id+"\n"+string(buf[:n]))
+			}
+		}
+	}
 	s.parked = append(s.parked, e)
 	if prep != nil {
 		prep(e)
@@ -221,6 +241,25 @@ func (s *Sim) ParkE(id string, ready func() bool, prep func(*Entry)) int {
 	code := <-e.ch
 	raceOn()
 	return code
+}
+
+// ParkCoin parks at a yield point; the scheduler flips the coin (see Entry.coin).
+//
+//go:norace
+func (s *Sim) ParkCoin(id string, pct int) {
+	s.mu.Lock()
+	if s.draining {
+		s.mu.Unlock()
+		return
+	}
+	s.seq++
+	e := &Entry{ID: id, seq: s.seq, ch: make(chan int, 1), in: true, coin: pct}
+	s.parked = append(s.parked, e)
+	s.mu.Unlock()
+	s.kick()
+	raceOff()
+	<-e.ch
+	raceOn()
 }
 
 // Park is ParkE without readiness predicate or cancellation.
@@ -261,6 +300,9 @@ func (s *Sim) Go(name string, f func()) {
 		defer func() {
 			s.actorDone(name, recover())
 		}()
+		s.mu.Lock()
+		s.goids[curGoid()] = name
+		s.mu.Unlock()
 		s.Park("a." + name + ".start")
 		f()
 	}()
@@ -277,6 +319,37 @@ func (s *Sim) actorDone(name string, r any) {
 	s.live--
 	s.mu.Unlock()
 	s.kick()
+}
+
+// curGoid returns the id of the calling goroutine (parsed from its stack
+// header; used only to give yield-point entries an identity that does not
+// depend on the order in which goroutines happen to arrive).
+func curGoid() uint64 {
+	var buf [40]byte
+	n := runtime.Stack(buf[:], false)
+	// "goroutine 123 ["
+	var id uint64
+	for _, c := range buf[10:n] {
+		if c < '0' || c > '9' {
+			break
+		}
+		id = id*10 + uint64(c-'0')
+	}
+	return id
+}
+
+// WhoAmI names the calling goroutine: the actor name for goroutines started
+// with Go, "lib" for everything else (library and net/http goroutines).
+//
+//go:norace
+func (s *Sim) WhoAmI() string {
+	id := curGoid()
+	s.mu.Lock()
+	defer s.mu.Unlock()
+	if n, ok := s.goids[id]; ok {
+		return n
+	}
+	return "lib"
 }
 
 // Live returns the number of actors still running.
@@ -364,6 +437,34 @@ func (s *Sim) Loop() {
 			s.mu.Unlock()
 			return
 		}
+		// undecided yield entries first, one at a time, in id order
+		var und *Entry
+		for _, e := range s.parked {
+			if e.coin > 0 && (und == nil || e.ID < und.ID || e.ID == und.ID && e.seq < und.seq) {
+				und = e
+			}
+		}
+		if und != nil {
+			pct := und.coin
+			und.coin = 0
+			if s.T.Draw(100) >= pct {
+				for i, x := range s.parked {
+					if x == und {
+						s.parked = append(s.parked[:i], s.parked[i+1:]...)
+						break
+					}
+				}
+				und.in = false
+				s.mu.Unlock()
+				raceOff()
+				und.ch <- 0
+				raceOn()
+				continue
+			}
+			s.Stats["yield.parked"]++
+			s.mu.Unlock()
+			continue
+		}
 		elig = elig[:0]
 		for _, e := range s.parked {
 			if e.ready != nil && !e.ready() {
@@ -422,6 +523,13 @@ func (s *Sim) Loop() {
 		pick.in = false
 		s.step++
 		s.last = pick.ID
+		if s.DebugElig {
+			var ids []string
+			for _, e := range elig {
+				ids = append(ids, e.ID)
+			}
+			s.Trace = append(s.Trace, fmt.Sprintf("   elig=%v consumed=%d", ids, s.T.Consumed()))
+		}
 		s.logLocked(fmt.Sprintf("%d %d %s", s.step, time.Since(s.Start).Microseconds(), pick.ID))
 		s.mu.Unlock()
 		raceOff()
